@@ -216,14 +216,19 @@ def R10B(body, ctx):
 
 def _rewrite_occupied_uses(text, e, recv, kvar, what, allow_into_mut):
     """Rewrite every use of the occupied-entry binder `e` inside `text`; all uses must be one of the
-    covered forms:  e.get()  |  e.remove();  |  *e.get_mut() OP= X;  |  e.into_mut().METHOD(ARGS);"""
+    covered forms (std, OccupiedEntry: `get` "Gets a reference to the value in the entry", `get_mut` "Gets a mutable
+    reference to the value in the entry", `into_mut` "Converts the OccupiedEntry into a mutable reference to the value
+    in the entry", `insert` "Sets the value of the entry, and returns the entry's old value", `remove` "Takes the
+    value out of the entry, and returns it"):
+    e.get()  |  e.remove();  |  *e.get_mut() OP= X;  |  *e.get_mut() = X;  |  e.insert(X);  |
+    e.into_mut().METHOD(ARGS);  |  e.get_mut().METHOD(ARGS);"""
     uses = len(_ident_uses(text, e))
     done = 0
     E = re.escape(e)
-    # *e.get_mut() OP= X;
+    # *e.get_mut() OP= X;   and the plain assignment   *e.get_mut() = X;
     while True:
         mask = code_mask(text)
-        ms = _code_matches(r'\*\s*(?<![A-Za-z0-9_])%s\s*\.\s*get_mut\s*\(\s*\)\s*([+\-])=(?!=)' % E, text, mask)
+        ms = _code_matches(r'\*\s*(?<![A-Za-z0-9_])%s\s*\.\s*get_mut\s*\(\s*\)\s*([+\-]?)=(?!=)' % E, text, mask)
         if not ms:
             break
         m = ms[0]
@@ -231,22 +236,41 @@ def _rewrite_occupied_uses(text, e, recv, kvar, what, allow_into_mut):
         if not semi:
             raise LostAnchor('%s: `*%s.get_mut() OP= ..` without `;`' % (what, e))
         rhs = text[m.end():semi.start()].strip()
-        new = '{ let v_ = *%s.get(&%s).unwrap(); %s.insert(%s, v_ %s %s); }' % (recv, kvar, recv, kvar, m.group(1), rhs)
+        if m.group(1):
+            new = '{ let v_ = *%s.get(&%s).unwrap(); %s.insert(%s, v_ %s %s); }' % (recv, kvar, recv, kvar, m.group(1), rhs)
+        else:
+            new = '{ let v_ = %s; %s.insert(%s, v_); }' % (rhs, recv, kvar)
         text = text[:m.start()] + new + text[semi.end():]
         done += 1
-    # e.into_mut().METHOD(ARGS);
-    while allow_into_mut:
+    # e.insert(X);   (the old value it returns is dropped)
+    while True:
         mask = code_mask(text)
-        ms = _code_matches(r'(?<![A-Za-z0-9_.])%s\s*\.\s*into_mut\s*\(\s*\)\s*\.\s*(%s)\s*\(' % (E, IDENT), text, mask)
+        ms = _code_matches(r'(?<![A-Za-z0-9_.])%s\s*\.\s*insert\s*\(' % E, text, mask)
         if not ms:
             break
         m = ms[0]
         args, k = _call_args(text, m.end() - 1, mask)
         k2 = _skip_ws(text, k)
         if k2 >= len(text) or text[k2] != ';':
-            raise LostAnchor('%s: value of `%s.into_mut().%s(..)` is used' % (what, e, m.group(1)))
+            raise LostAnchor('%s: value of `%s.insert(..)` is used' % (what, e))
+        new = '{ let v_ = %s; %s.insert(%s, v_); }' % (args, recv, kvar)
+        text = text[:m.start()] + new + text[k2 + 1:]
+        done += 1
+    # e.into_mut().METHOD(ARGS);   e.get_mut().METHOD(ARGS);
+    while True:
+        mask = code_mask(text)
+        ms = _code_matches(r'(?<![A-Za-z0-9_.])%s\s*\.\s*(into_mut|get_mut)\s*\(\s*\)\s*\.\s*(%s)\s*\(' % (E, IDENT), text, mask)
+        if not ms:
+            break
+        m = ms[0]
+        if m.group(1) == 'into_mut' and not allow_into_mut:
+            raise LostAnchor('%s: `%s.into_mut()` where the entry is still needed' % (what, e))
+        args, k = _call_args(text, m.end() - 1, mask)
+        k2 = _skip_ws(text, k)
+        if k2 >= len(text) or text[k2] != ';':
+            raise LostAnchor('%s: value of `%s.%s().%s(..)` is used' % (what, e, m.group(1), m.group(2)))
         new = ('{ let mut v_ = %s.remove(&%s).unwrap(); v_.%s(%s); %s.insert(%s, v_); }'
-               % (recv, kvar, m.group(1), args, recv, kvar))
+               % (recv, kvar, m.group(2), args, recv, kvar))
         text = text[:m.start()] + new + text[k2 + 1:]
         done += 1
     # e.remove();
@@ -301,7 +325,7 @@ def R10C(body, ctx):
             break
         a, b, recv, key, inner = hit
         e, b1, _, b2, vblk = _entry_arms(_parse_arms(inner), 'R10C')
-        b1 = _rewrite_occupied_uses(b1, e, recv, 'k_', 'R10C', allow_into_mut=False)
+        b1 = _rewrite_occupied_uses(b1, e, recv, 'k_', 'R10C', allow_into_mut=True)
         if not vblk:
             b2 = b2 + ';'
         new = '{ let k_ = %s; if %s.contains_key(&k_) {%s} else {%s} }' % (key, recv, b1, b2)
@@ -312,16 +336,17 @@ def R10C(body, ctx):
 
 
 def R10D(body, ctx):
-    """`let X = match M.entry(K) { P::Vacant(_) => DIVERGE, P::Occupied(y) => y, };  REST-OF-BLOCK`
+    """`let [mut] X = match M.entry(K) { P::Vacant(_) => DIVERGE, P::Occupied(y) => y, };  REST-OF-BLOCK`
     (DIVERGE is `panic!(..)` / `unreachable!(..)`) ->
     `let k_X = K; if !M.contains_key(&k_X) { DIVERGE; }  REST'` where REST' is REST with
        `X.get()` -> `M.get(&k_X).unwrap()`,  `X.remove();` -> `M.remove(&k_X);`,
-       `X.into_mut().METHOD(ARGS);` -> `{ let mut v_ = M.remove(&k_X).unwrap(); v_.METHOD(ARGS); M.insert(k_X, v_); }`."""
+       `X.into_mut().METHOD(ARGS);` / `X.get_mut().METHOD(ARGS);` -> `{ let mut v_ = M.remove(&k_X).unwrap(); v_.METHOD(ARGS); M.insert(k_X, v_); }`
+    (and the other forms of `_rewrite_occupied_uses`)."""
     n = 0
     while True:
         mask = code_mask(body)
         hit = None
-        for m in _code_matches(r'(?<![A-Za-z0-9_])let\s+(%s)\s*=\s*match\s+(%s)\s*\.\s*entry\s*\(' % (IDENT, CHAIN), body, mask):
+        for m in _code_matches(r'(?<![A-Za-z0-9_])let\s+(?:mut\s+)?(%s)\s*=\s*match\s+(%s)\s*\.\s*entry\s*\(' % (IDENT, CHAIN), body, mask):
             key, k = _call_args(body, m.end() - 1, mask)
             ob = _skip_ws(body, k)
             if ob >= len(body) or body[ob] != '{':
@@ -364,7 +389,7 @@ def R10D(body, ctx):
 
 
 def R11P(body, ctx):
-    """`Q.iter().position(|x| x == &E)` (Q an expression of type `&VecDeque<T>`) -> `deque_position_eq(Q, &E)`
+    """`Q.iter().position(|x| x == &E)` / `Q.iter().position(|x| *x == E)` (Q an expression of type `&VecDeque<T>`) -> `deque_position_eq(Q, &E)`
     (prelude/net.rs: the index of the first element equal to E, transcribed from Iterator::position)."""
     n = 0
     while True:
@@ -374,9 +399,12 @@ def R11P(body, ctx):
             break
         m = ms[0]
         clo, k = _call_args(body, m.end() - 1, mask)
-        mc = re.match(r'^\s*\|\s*(%s)\s*\|\s*(%s)\s*==\s*&\s*(.+?)\s*$' % (IDENT, IDENT), clo, re.S)
+        # `|x| x == &E`, or the same comparison spelled `|x| *x == E` (both are `PartialEq::eq(x, &E)`: std `impl PartialEq<&B>
+        # for &A` "forwards to" the comparison of the referents)
+        mc = (re.match(r'^\s*\|\s*(%s)\s*\|\s*(%s)\s*==\s*&\s*(.+?)\s*$' % (IDENT, IDENT), clo, re.S)
+              or re.match(r'^\s*\|\s*(%s)\s*\|\s*\*\s*(%s)\s*==\s*(?!&)(.+?)\s*$' % (IDENT, IDENT), clo, re.S))
         if not mc or mc.group(1) != mc.group(2):
-            raise LostAnchor('R11P: position closure is not `|x| x == &E`')
+            raise LostAnchor('R11P: position closure is not `|x| x == &E` / `|x| *x == E`')
         needle = mc.group(3)
         if _ident_uses(needle, mc.group(1)) or find_top(needle, r'==|&&|\|\|'):
             raise LostAnchor('R11P: position closure is not `|x| x == &E`')
@@ -479,7 +507,7 @@ def R11M(body, ctx):
 
 
 def P_FOR_OWNED(body, ctx):
-    """A parameter `P: impl IntoIterator<Item = T>` (T an owned type) whose only use is `for X in P { B }`
+    """A parameter `P: impl IntoIterator<Item = T>` (T an owned type) whose only use is `for X in P { B }` (or `for X in P.into_iter() { B }`)
     -> `P: Vec<T>` and `for X in it_: P { B }`.
     The function consumes the iterable once, front to back; a Vec is the finite sequence of items any such
     iterable yields (iterables that never end or have side effects are outside the contract; cf. P_FOR_REFS of
@@ -510,7 +538,8 @@ def P_FOR_OWNED(body, ctx):
         mask = code_mask(body)
         uses = _ident_uses(body, p)
         mf = None
-        for f in re.finditer(r'(?<![A-Za-z0-9_.])for\s+(.+?)\s+in\s+' + re.escape(p) + r'\s*\{', body):
+        # `for X in P {` or, spelled out, `for X in P.into_iter() {` (what the `for` loop calls on P anyway)
+        for f in re.finditer(r'(?<![A-Za-z0-9_.])for\s+(.+?)\s+in\s+' + re.escape(p) + r'(?:\s*\.\s*into_iter\s*\(\s*\))?\s*\{', body):
             if mask[f.start()]:
                 mf = f
                 break
